@@ -212,7 +212,7 @@ def emit_unary(o):
     s.append(f"//@ extract rust/dual/dual_ops/{o['file']}.rs :: macro {o['macro']} #{o['k']}\n")
     s.append(f"//@ rename {o['name']}\n")
     s.append(f"//@ props {o['props']}\n")
-    s.append("//@ opt ufcs float_lits\n")
+    s.append("//@ opt ufcs float_lits identity\n")
     s.append("//@ subst `f64` => `R64` optional\n")
     s.append("//@ sig\n")
     ar = "a" if o['A'].startswith("&") else "&a"
@@ -288,7 +288,7 @@ def emit(o):
     s.append(f"//@ extract rust/dual/dual_ops/{o['file']}.rs :: macro {o['macro']} #{o['k']}\n")
     s.append(f"//@ rename {o['name']}\n")
     s.append(f"//@ props {o['props']}\n")
-    s.append("//@ opt ufcs float_lits\n")
+    s.append("//@ opt ufcs float_lits identity\n")
     s.append("//@ subst `f64` => `R64` optional\n")
     if o["extra"]:
         s.append(o["extra"].rstrip("\n") + "\n")
